@@ -8,6 +8,8 @@ mod c02;
 #[cfg(kani)]
 mod c12;
 #[cfg(kani)]
+mod c03;
+#[cfg(kani)]
 mod c17;
 #[cfg(kani)]
 mod w8;
